@@ -1904,3 +1904,179 @@ Proof.
   destruct (pvalue_sim _ pan rk (proj1 (SO _)) _ _ _ _ _ (conj I Rk) H) as [(_ & G & L) _].
   split; auto. split; auto. eapply VC_le; eauto.
 Qed.
+
+(* ---- totality: on reachable states reads never get stuck (fuel = number of nodes + 1 suffices) ---- *)
+Lemma cmp_deps_total s st L : forall dv, length L <= length dv ->
+  (forall d, In d L -> (exists w, ver_of st d = Some w) /\ exists b, s d = Some b) ->
+  exists b, cmp_deps s st L dv = Some b.
+Proof.
+  induction L as [|d r IH]; intros dv Hl H; simpl; [eauto|].
+  destruct dv as [|v vs]; [simpl in Hl; lia|].
+  destruct (H d (or_introl eq_refl)) as [[w ->] [b Hb]]. simpl.
+  destruct (negb (w =? v)); [eauto|]. rewrite Hb. simpl. destruct b; [eauto|].
+  apply IH; [simpl in Hl; lia|]. intros d' Hd'; apply H; right; exact Hd'.
+Qed.
+
+Lemma depth_nth_store f st n h : depth f (graph_of st) n = Some h -> exists x, nth_error st n = Some x.
+Proof.
+  intros H. apply depth_some_lt in H. rewrite graph_of_length in H.
+  destruct (nth_error st n) eqn:E; eauto. apply nth_error_None in E. lia.
+Qed.
+
+Lemma stale_total po : perm_ok po -> forall f st n h, Inv st -> depth f (graph_of st) n = Some h ->
+  exists b, stale po f st n = Some b.
+Proof.
+  intros PO. induction f; intros st n h I H; [discriminate|].
+  rewrite depth_S, graph_nth in H. rewrite stale_S.
+  destruct (nth_error st n) as [[ver w sets|sn]|] eqn:En; simpl in H; [eauto| |discriminate].
+  inv_bind H. destruct (sn_depvers sn) as [dv|] eqn:Edv; [|eauto]. destruct (sn_dirty sn) eqn:Ed; [eauto|].
+  destruct (I _ _ En dv Edv Ed) as (sv & sx & l & P & E' & _).
+  apply cmp_deps_total.
+  - subst dv. rewrite !map_length. apply Nat.eq_le_incl.
+    etransitivity; [exact (Permutation_length (PO Cmp n (raw_deps (sn_ports sn)))) | symmetry; exact (Permutation_length P)].
+  - intros d Hd. apply (perm_in_deps po n sn d PO) in Hd.
+    destruct (map_opt_some_in _ _ _ E d Hd) as (hd & Ed' & _). split.
+    + destruct (depth_nth_store _ _ _ _ Ed') as [x Ex]. unfold ver_of. rewrite Ex. destruct x; eauto.
+    + eapply IHf; eauto.
+Qed.
+
+Section Total.
+  Variable po : order.
+  Hypothesis ST : stable po.
+  Variable pan : pantab.
+  Variable rk : id -> nat.
+  Variable f0 : nat.
+  Hypothesis IHt : forall st n h, PreP pan rk st -> depth f0 (graph_of st) n = Some h ->
+    exists st' r, pvalue po pan f0 st n = Some (st', r).
+
+  Definition keeps (st st1 : store) : Prop :=
+    PreP pan rk st1 /\ graph_of st1 = graph_of st /\ length st1 = length st.
+
+  Lemma pvalue_keeps st n st' r : PreP pan rk st -> pvalue po pan f0 st n = Some (st', r) -> keeps st st'.
+  Proof.
+    intros HP E. destruct (pvalue_full po pan rk ST _ _ _ _ _ HP E) as (I' & _ & _).
+    destruct (pvalue_sim po pan rk (proj1 ST) _ _ _ _ _ (proj1 HP) E) as [(P' & G & L) _].
+    split; [split; auto|]. split; auto. apply L.
+  Qed.
+
+  Lemma pread_list_total : forall l st, PreP pan rk st ->
+    (forall d, In d l -> exists h, depth f0 (graph_of st) d = Some h) ->
+    exists st1 oxs, pread_list (pvalue po pan f0) st l = Some (st1, oxs) /\ keeps st st1.
+  Proof.
+    induction l as [|d r IHl]; simpl; intros st HP H.
+    - exists st, (Some []). split; auto. split; auto.
+    - destruct (H d (or_introl eq_refl)) as [h Hd]. destruct (IHt _ _ _ HP Hd) as (sa & x & E).
+      rewrite E. simpl. destruct (pvalue_keeps _ _ _ _ HP E) as (Pa & Ga & La).
+      destruct x as [v|]; [|exists sa, None; split; auto; split; auto].
+      destruct (IHl sa Pa) as (sb & oxs & E2 & Pb & Gb & Lb).
+      { intros d' Hd'. rewrite Ga. apply H; auto. }
+      rewrite E2. simpl. eexists _, _. split; [reflexivity|]. split; auto. split; congruence.
+  Qed.
+
+  Lemma pread_ports_total : forall ps st, PreP pan rk st ->
+    (forall d, In d (concat ps) -> exists h, depth f0 (graph_of st) d = Some h) ->
+    exists st1 oxss, pread_ports (pvalue po pan f0) st ps = Some (st1, oxss) /\ keeps st st1.
+  Proof.
+    induction ps as [|l r IHp]; simpl; intros st HP H.
+    - exists st, (Some []). split; auto. split; auto.
+    - destruct (pread_list_total l st HP) as (sa & oxs & E & Pa & Ga & La).
+      { intros; apply H, in_or_app; auto. }
+      rewrite E. simpl. destruct oxs as [xs|]; [|exists sa, None; split; auto; split; auto].
+      destruct (IHp sa Pa) as (sb & oxss & E2 & Pb & Gb & Lb).
+      { intros d' Hd'. rewrite Ga. apply H, in_or_app; auto. }
+      rewrite E2. simpl. eexists _, _. split; [reflexivity|]. split; auto. split; congruence.
+  Qed.
+End Total.
+
+Lemma pvalue_total po pan rk : stable po -> forall f st n h,
+  PreP pan rk st -> depth f (graph_of st) n = Some h -> exists st' r, pvalue po pan f st n = Some (st', r).
+Proof.
+  intros ST. pose proof (proj1 ST) as PO. induction f as [|f0 IH]; intros st n h HP H; [discriminate|].
+  destruct (stale_total po PO _ _ _ _ (proj1 (proj1 HP)) H) as [b Hb].
+  rewrite depth_S, graph_nth in H. rewrite pvalue_S.
+  destruct (nth_error st n) as [[ver w sets|sn]|] eqn:En; simpl in H; [eauto| |discriminate].
+  inv_bind H. rewrite Hb. simpl. destruct b; [|eauto].
+  destruct (pread_ports_total po ST pan rk f0 IH (ids_of sn) st HP) as (st1 & oins & E1 & P1 & G1 & L1).
+  { intros d Hd. destruct (map_opt_some_in _ _ _ E d Hd) as (hd & Ed & _). eauto. }
+  rewrite E1. simpl. destruct oins as [ins|]; [|eauto]. destruct (pan n ins); [eauto|].
+  destruct (map_opt_total (ver_of st1) (map snd (po Rec n (raw_deps (sn_ports sn))))) as [vers ->]; [|simpl; eauto].
+  intros d Hd. rewrite (proj2 ST) in Hd. apply (perm_in_deps po n sn d PO) in Hd.
+  destruct (map_opt_some_in _ _ _ E d Hd) as (hd & Ed & _).
+  apply depth_some_lt in Ed. rewrite graph_of_length, <- L1 in Ed.
+  unfold ver_of. destruct (nth_error st1 d) as [[|]|] eqn:Ex; eauto. apply nth_error_None in Ex. lia.
+Qed.
+
+(* every read of an existing node on every reachable state returns: a value or a panic, never stuck *)
+Theorem pread_total pan orc ds h s n :
+  stable_oracle orc -> prun pan orc (init ds) h = Some s -> n < length (nodes s) ->
+  exists st' r, pvalue (orc (clock s)) pan (fuel_of (nodes s)) (nodes s) n = Some (st', r).
+Proof.
+  intros SO R Hn.
+  destruct (prun_Good pan orc SO _ _ _ (init_Good pan ds) R) as ([I [rk Rk]] & V & IP & A).
+  unfold acyclic_b in A. rewrite forallb_forall in A. specialize (A n).
+  rewrite in_seq, graph_of_length in A. specialize (A (conj (Nat.le_0_l _) Hn)).
+  destruct (depth (S (length (nodes s))) (graph_of (nodes s)) n) as [hh|] eqn:E; [|discriminate].
+  eapply (pvalue_total _ pan rk (SO _)); [split; [split|]; eauto | exact E].
+Qed.
+
+(* ---- the panic-free model is the instance pan = nopan ---- *)
+Definition nopan : pantab := fun _ _ => false.
+
+Section NoPan.
+  Variable po : order.
+  Variable f0 : nat.
+  Hypothesis IHv : forall st n st' v, value po f0 st n = Some (st', v) -> pvalue po nopan f0 st n = Some (st', POk v).
+
+  Lemma read_list_nopan : forall l st st1 xs, read_list (value po f0) st l = Some (st1, xs) ->
+    pread_list (pvalue po nopan f0) st l = Some (st1, Some xs).
+  Proof.
+    induction l as [|d r IHl]; simpl; intros st st1 xs H.
+    - injection H as <- <-. reflexivity.
+    - apply bind_some in H as [[sa x] [E1 H]]. apply bind_some in H as [[sb xs'] [E2 H]]. injection H as <- <-.
+      rewrite (IHv _ _ _ _ E1). simpl. rewrite (IHl _ _ _ E2). reflexivity.
+  Qed.
+  Lemma read_ports_nopan : forall ps st st1 xss, read_ports (value po f0) st ps = Some (st1, xss) ->
+    pread_ports (pvalue po nopan f0) st ps = Some (st1, Some xss).
+  Proof.
+    induction ps as [|l r IHp]; simpl; intros st st1 xss H.
+    - injection H as <- <-. reflexivity.
+    - apply bind_some in H as [[sa xs] [E1 H]]. apply bind_some in H as [[sb xss'] [E2 H]]. injection H as <- <-.
+      rewrite (read_list_nopan _ _ _ _ E1). simpl. rewrite (IHp _ _ _ E2). reflexivity.
+  Qed.
+End NoPan.
+
+Lemma value_nopan po : forall f st n st' v, value po f st n = Some (st', v) -> pvalue po nopan f st n = Some (st', POk v).
+Proof.
+  induction f as [|f0 IH]; intros st n st' v H; [discriminate|].
+  rewrite value_S in H. rewrite pvalue_S. destruct (nth_error st n) as [[ver w sets|sn]|]; [| |discriminate].
+  - injection H as <- <-. reflexivity.
+  - apply bind_some in H as [o [Es H]]. rewrite Es. simpl. destruct o.
+    + apply bind_some in H as [[st1 ins] [Er H]]. rewrite (read_ports_nopan po f0 IH _ _ _ _ Er). simpl.
+      apply bind_some in H as [vers [Ev H]]. rewrite Ev. simpl. injection H as <- <-. reflexivity.
+    + injection H as <- <-. reflexivity.
+Qed.
+
+Lemma run_prun orc : forall h s s', run orc s h = Some s' -> prun nopan orc s h = Some s'.
+Proof.
+  induction h as [|o r IH]; simpl; intros s s' H; auto.
+  apply bind_some in H as [[s1 res] [E H]].
+  assert (Hp : pstep nopan orc s o = Some s1); [|rewrite Hp; simpl; apply IH; exact H].
+  destruct o; cbn [pstep]; try (rewrite E; reflexivity).
+  pose proof (step_inv _ _ _ _ _ E) as E'. destruct (step_store_read _ _ _ _ _ E') as [v Hv].
+  rewrite (value_nopan _ _ _ _ _ _ Hv). simpl. unfold step in E. cbn [step_store] in E. rewrite Hv in E. simpl in E.
+  injection E as <- _. reflexivity.
+Qed.
+
+(* TOTALITY of the panic-free model: after every history, reading any existing node returns a value *)
+Theorem read_total orc ds h s n :
+  stable_oracle orc -> run orc (init ds) h = Some s -> n < length (nodes s) ->
+  exists s' v, read orc s n = Some (s', v).
+Proof.
+  intros SO R Hn. apply run_prun in R.
+  destruct (pread_total nopan orc ds h s n SO R Hn) as (st' & r & E).
+  destruct (prun_Good nopan orc SO _ _ _ (init_Good nopan ds) R) as ([I [rk Rk]] & _).
+  destruct (pvalue_sim _ nopan rk (proj1 (SO _)) _ _ _ _ _ (conj I Rk) E) as [_ O].
+  destruct r as [v|].
+  - exists {| nodes := st'; clock := S (clock s) |}, v. unfold read, step. cbn [step_store]. rewrite O. reflexivity.
+  - destruct O as (m & idsm & proc & ins & F & _ & _ & Hp). discriminate.
+Qed.
